@@ -22,8 +22,10 @@ EXTENDS KS, Json, SequencesExt
 
 CONSTANTS AsCode      \* TRUE: transcribe the printer as the code has it (2D offsets, 3D header); FALSE: as Prop demands
 
-Configs == {c \in [dim : {2, 3}, nc : 0..3, ngc : 0..2, ng : 0..3, conv : BOOLEAN, comma : BOOLEAN] :
-               (c.conv => c.dim = 3) /\ (c.ngc = 0 => c.ng = 0)}
+(* wsph: the world is spherical.  "convert spherical" only says how the rows give their points; it is
+   legitimate with a Cartesian world too (wsph = FALSE, conv = TRUE) *)
+Configs == {c \in [dim : {2, 3}, nc : 0..3, ngc : 0..2, ng : 0..3, conv : BOOLEAN, comma : BOOLEAN, wsph : BOOLEAN] :
+               (c.conv => c.dim = 3) /\ (c.ngc = 0 => c.ng = 0) /\ (c.wsph => c.conv)}
 
 Request(c) == <<PT, PV>> \o [i \in 1..c.nc |-> PC(i - 1)] \o [g \in 1..c.ngc |-> PG(g - 1, c.ng)] \o <<PTag>>
 
@@ -64,18 +66,24 @@ AllRefine == \A c \in Configs : MechRefinesProp(c)
 (* Rendering: the .dat file, the world, the rows                           *)
 (***************************************************************************)
 ProbesKm == << <<100, 250, 50>>, <<250, 250, 100>>, <<600, 250, 120>>, <<800, 250, 130>>, <<300, 250, 20>>, <<1500, 250, 50>>, <<400, 250, 0>> >>
-Doc(c) == World(IF c.conv THEN Spherical("begin segment") ELSE Cartesian, KSFeatures(c.conv))
-          @@ ("cross section" :> <<XY(c.conv, 0, 250), XY(c.conv, 1000, 250)>>)
+Doc(c) == World(IF c.wsph THEN Spherical("begin segment") ELSE Cartesian, KSFeatures(c.wsph))
+          @@ ("cross section" :> <<XY(c.wsph, 0, 250), XY(c.wsph, 1000, 250)>>)
+
+(* rows <<radius km, longitude, latitude, depth as written>> that land inside the Cartesian kitchen sink *)
+CartConvRows == << <<1000, 45, 60, "133974.6">>, <<1100, 10, 50, "157351.1">>, <<950, 20, 70, "107292">>, <<1000, 80, 85, "3805.3">>,
+                   <<3000, 45, 45, "50000">>, <<1000, 45, 89, "152.3">>, <<1200, 15, 40, "228654.9">> >>
 
 (* the fields of data row i as they are written into the file (strings), and the query they denote *)
 RowFields(c, i) ==
   LET pr == ProbesKm[i] IN
   IF c.dim = 2 THEN <<S(pr[1] * Km), S(H - pr[3] * Km), S(pr[3] * Km)>>
+  ELSE IF c.conv /\ ~c.wsph THEN <<S(CartConvRows[i][1] * Km), S(CartConvRows[i][2]), S(CartConvRows[i][3]), CartConvRows[i][4]>>
   ELSE IF c.conv THEN <<S(R - pr[3] * Km), S(pr[1] \div 100) \o "." \o (IF (pr[1] % 100) < 10 THEN "0" ELSE "") \o S(pr[1] % 100), "2.5", S(pr[3] * Km)>>
   ELSE <<S(pr[1] * Km), S(pr[2] * Km), S(H - pr[3] * Km), S(pr[3] * Km)>>
 RowQuery(c, i) ==
   LET pr == ProbesKm[i] IN
   (IF c.dim = 2 THEN [p |-> <<pr[1] * Km, H - pr[3] * Km>>, dim |-> 2]
+   ELSE IF c.conv /\ ~c.wsph THEN [sph |-> <<CartConvRows[i][1] * Km, CartConvRows[i][2], CartConvRows[i][3]>>, dim |-> 3, depthstr |-> CartConvRows[i][4]]
    ELSE IF c.conv THEN [sph |-> <<R - pr[3] * Km, Rat(pr[1], 100), Rat(250, 100)>>, dim |-> 3]
    ELSE [p |-> <<pr[1] * Km, pr[2] * Km, H - pr[3] * Km>>, dim |-> 3])
   @@ [op |-> "q", h |-> 1, depth |-> pr[3] * Km, props |-> Request(c), save |-> "row" \o S(i)]
